@@ -31,6 +31,10 @@ func (ex *Exec) chanRecv(c *ctx, x *ssa.UnOp, work *[]*ctx, outs *[]Outcome) boo
 	case cd.closed:
 		v, ok = ex.zero(elem), false
 	default:
+		if c.st.script.set {
+			ex.deadlock(c.st, x, "receive blocks forever: the channel is empty, still open, and its producer has finished")
+			return false
+		}
 		unsup("receive on an empty open channel would block (goroutine schedules are outside the executor)")
 	}
 	if x.CommaOk {
@@ -61,11 +65,183 @@ func (ex *Exec) chanSend(c *ctx, x *ssa.Send, work *[]*ctx, outs *[]Outcome) boo
 	c.pc++
 	return true
 }
+// ---- goroutines, sequentialised -------------------------------------------
+//
+// The only concurrency in the code base is the driver's producer goroutine:
+// it hands rows over an unbuffered channel inside
+// `select { case <-ctx.Done(): …; case ch <- row: … }` and finishes with
+// close(ch), rows.err = …, wg.Done(). With ONE consumer that calls Next k times
+// and then Close (cancel + wg.Wait) the system is a coroutine, and every
+// interleaving is equivalent to: the producer runs to completion at the `go`
+// statement under a *consumer script* (how many sends will be received, whether
+// the consumer cancels afterwards), the sent values wait in the channel, then
+// the consumer runs. That is what is implemented here:
+//   go f(x)            f runs to completion right away (forks as any call)
+//   unbuffered send    succeeds while the script's receive budget lasts
+//   <-ctx.Done()       ready once the budget is used up and the script cancels
+//   select             forks over the ready cases; none ready + blocking = deadlock
+//   recv / wg.Wait     by the consumer afterwards; would-block = deadlock finding
+// Outside the model (stated in MANIFEST): orderings *inside* the producer's
+// epilogue relative to the consumer (e.g. close before rows.err is set), several
+// consumers, cancellation arriving while a receive is pending.
+
+type threadScript struct {
+	budget     int  // sends on unbuffered channels that will be received
+	willCancel bool // the consumer cancels / closes after that
+	set        bool
+}
+
+func (ex *Exec) deadlock(st *State, in ssa.Instruction, what string) {
+	ex.obligations++
+	fn := ""
+	if in != nil {
+		fn = in.Parent().String()
+	}
+	site := "deadlock"
+	if in != nil {
+		site = ex.pos(in)
+	}
+	ex.recordViolation(st, "deadlock", site, fn, what)
+}
+
+func (ex *Exec) chanReadyRecv(st *State, ch ChanV) (ready bool) {
+	if ch.obj == 0 {
+		return false
+	}
+	cd := st.obj(ch.obj).val.(*ChanData)
+	return len(cd.buf) > 0 || cd.closed
+}
+
 func (ex *Exec) selectStmt(c *ctx, x *ssa.Select, work *[]*ctx, outs *[]Outcome) bool {
-	unsup("select statement")
+	tt := ex.tt
+	st := c.st
+	// result tuple: (index, recvOk, r_0..r_n-1) with one r per receive state
+	nrecv := 0
+	for _, s := range x.States {
+		if s.Dir == types.RecvOnly {
+			nrecv++
+		}
+	}
+	mkResult := func(s *State, idx int, recvOk bool, recvIdx int, v Value) TupleV {
+		t := TupleV{tt.BV(uint64(int64(idx)), 64), tt.Bool(recvOk)}
+		ri := 0
+		for _, sst := range x.States {
+			if sst.Dir != types.RecvOnly {
+				continue
+			}
+			elem := sst.Chan.Type().Underlying().(*types.Chan).Elem()
+			if ri == recvIdx && v != nil {
+				t = append(t, v)
+			} else {
+				t = append(t, ex.zero(elem))
+			}
+			ri++
+		}
+		return t
+	}
+	type ready struct {
+		idx int
+	}
+	var rdy []int
+	for i, s := range x.States {
+		ch := ex.val(c, s.Chan).(ChanV)
+		if s.Dir == types.RecvOnly {
+			if ex.chanReadyRecv(st, ch) {
+				rdy = append(rdy, i)
+			} else if st.ctxChans[ch.obj] && st.script.set && st.script.budget == 0 && st.script.willCancel {
+				// the consumer cancels once it has taken what it wanted
+				rdy = append(rdy, i)
+			}
+		} else {
+			if ch.obj == 0 {
+				continue
+			}
+			cd := st.obj(ch.obj).val.(*ChanData)
+			if cd.closed {
+				rdy = append(rdy, i) // will panic
+			} else if len(cd.buf) < cd.cap {
+				rdy = append(rdy, i)
+			} else if cd.cap == 0 && st.script.set && st.script.budget > 0 {
+				rdy = append(rdy, i)
+			}
+		}
+	}
+	if len(rdy) == 0 {
+		if !x.Blocking {
+			ex.set(c, x, mkResult(st, -1, false, -1, nil))
+			c.pc++
+			return true
+		}
+		ex.deadlock(st, x, "select blocks forever: no case can become ready under the consumer script (goroutine leak)")
+		return false
+	}
+	for k, i := range rdy {
+		ci := c
+		if k < len(rdy)-1 {
+			ci = c.clone()
+			ex.forks++
+		}
+		s := x.States[i]
+		ch := ex.val(ci, s.Chan).(ChanV)
+		if s.Dir == types.RecvOnly {
+			ri := 0
+			for _, sst := range x.States[:i] {
+				if sst.Dir == types.RecvOnly {
+					ri++
+				}
+			}
+			o := ci.st.mut(ch.obj)
+			cd := *o.val.(*ChanData)
+			elem := s.Chan.Type().Underlying().(*types.Chan).Elem()
+			var v Value = ex.zero(elem)
+			ok := false
+			if len(cd.buf) > 0 {
+				v, ok = cd.buf[0], true
+				cd.buf = append([]Value(nil), cd.buf[1:]...)
+				o.val = &cd
+			}
+			ex.set(ci, x, mkResult(ci.st, i, ok, ri, v))
+		} else {
+			o := ci.st.mut(ch.obj)
+			cd := *o.val.(*ChanData)
+			if cd.closed {
+				ex.obligations++
+				ex.recordViolation(ci.st, "panic", ex.pos(x), c.fn.String(), "send on closed channel")
+				continue
+			}
+			if cd.cap == 0 {
+				ci.st.script.budget--
+			}
+			cd.buf = append(append([]Value(nil), cd.buf...), ex.val(ci, s.Send))
+			o.val = &cd
+			ex.set(ci, x, mkResult(ci.st, i, false, -1, nil))
+		}
+		ci.pc++
+		*work = append(*work, ci)
+	}
 	return false
 }
+
+// goStmt: the goroutine runs to completion here (see the comment above).
 func (ex *Exec) goStmt(c *ctx, x *ssa.Go, fv FuncV, args []Value, work *[]*ctx, outs *[]Outcome) bool {
-	unsup("go statement")
+	if !c.st.script.set {
+		unsup("go statement without a consumer script (verifConsumerScript): goroutine schedules are only encoded for the sequentialised producer/consumer pattern")
+	}
+	ex.assumes["goroutines are sequentialised: the producer started by `go` runs to completion under the harness's consumer script (receive budget, then cancel); only single-consumer rendezvous patterns are covered"] = true
+	res := ex.callFunc(c.st, fv, args, nil)
+	for i, o := range res {
+		ci := c
+		if i < len(res)-1 {
+			ci = c.clone()
+		}
+		ci.st = o.st
+		if o.pan != nil {
+			ex.obligations++
+			ex.recordViolation(o.st, "panic", ex.pos(x), c.fn.String(), "panic in goroutine: "+o.pan.msg)
+			continue
+		}
+		ci.pc++
+		*work = append(*work, ci)
+	}
 	return false
 }
